@@ -36,6 +36,15 @@ var SimScenarios = map[string]*Scenario{}
 
 func registerScenario(s *Scenario) { SimScenarios[s.Name] = s }
 
+// RegisterSimScenario lets the harness package add scenarios that need other packages (mux).
+func RegisterSimScenario(s *Scenario) { registerScenario(s) }
+
+// SetNonTrivial / SetSummary are the exported setters for scenarios outside this package.
+func (e *Env) SetNonTrivial(b bool)          { e.nonTriv = b }
+func (e *Env) SetSummary(s, state string)    { e.Summary, e.State = s, state }
+func (e *Env) NewFDPair() (Connection, int)  { c, p := e.NewPair(0); return c, p }
+func (e *Env) CheckDescriptors()             { CheckLedger(e) }
+
 // SimScenarioNames lists the registered scenarios.
 func SimScenarioNames() []string {
 	var ns []string
@@ -71,6 +80,7 @@ type Env struct {
 
 func (e *Env) Rec(kind string, conn, n int, s string) {
 	e.Hist = append(e.Hist, Ev{Seq: simrt.Step(), Kind: kind, Conn: conn, N: n, S: s})
+	simrt.Publish()
 }
 
 func (e *Env) Fail(oracle, fingerprint, format string, a ...interface{}) {
@@ -131,7 +141,9 @@ func (e *Env) Setup(pollers int, faults bool) {
 	defaultLinkBufferSize = pagesize
 	LinkBufferCap = block4k
 	vtime.AsyncChan = true
-	vsync.PoolReuse = true
+	// (race build: the real sync.Pool orders Put and Get of one object; the shim's hand-off is
+	// hidden from the detector, so it must not hand objects from one task to another there)
+	vsync.PoolReuse = !simrt.RaceBuild
 	mcache.Reset(false)
 	if faults {
 		e.Faulty = true
@@ -242,6 +254,7 @@ func (e *Env) NewConnMode(mode int) (*connection, int) {
 		var got *connection
 		evl, _ := NewEventLoop(nil, WithOnPrepare(func(c Connection) context.Context {
 			got = c.(*connection)
+			simrt.Publish()
 			return nil
 		}))
 		e.StartServer(evl, ln)
@@ -401,6 +414,11 @@ func SimRunScenario(name string, cfg simrt.Config) *SimResult {
 	})
 	// a netpoll panic in any task is a finding of the scenario's own property
 	for _, p := range res.Panics {
+		if strings.Contains(p.Value, "harness:") && !strings.Contains(p.Value, "scripted") {
+			// the harness could not set its scenario up (not a verdict)
+			res.Outcome = "harness-error"
+			res.Blocked = append(res.Blocked, p.Value)
+		}
 		if !strings.Contains(p.Value, "harness:") {
 			site := panicSite(p.Stack)
 			res.Violations = append(res.Violations, simrt.Violation{Property: sc.Property, Oracle: "no-panic",
